@@ -98,10 +98,16 @@ StkDelegate(s, from, v, a) ==
        IF w1.bank["hub"]["usei"] < a THEN Fail(s, "staking: insufficient funds")
        ELSE SetW(s, [w1 EXCEPT !.bank["hub"]["usei"] = @ - a, !.deleg[v] = @ + a])
 
+\* The SDK keeps at most 7 simultaneous unbonding entries per (delegator, validator) pair; section 4 (E2) leaves the limit
+\* out.  MaxEntries > 0 (switched on only by the exploration "E2-maxentries": MaxEntries <- MaxEntriesOn) models it.
+MaxEntries   == 0
+MaxEntriesOn == 7
 StkUndelegate(s, from, v, a) ==
   IF from # "hub" THEN Fail(s, "staking: only the hub is modelled as delegator")
   ELSE IF v \notin Vals THEN Fail(s, "staking: unknown validator")
   ELSE IF a <= 0 \/ s.w.deleg[v] < a THEN Fail(s, "staking: invalid undelegate")
+  ELSE IF MaxEntries > 0 /\ Cardinality({i \in 1..Len(s.w.unbq) : s.w.unbq[i].v = v}) >= MaxEntries
+       THEN Fail(s, "staking: too many unbonding entries")
   ELSE LET w1 == AutoWithdraw(s.w, v) IN
        SetW(s, [w1 EXCEPT !.deleg[v] = @ - a,
                           !.unbq = Append(@, [v |-> v, amt |-> a, at |-> w1.now + w1.chainUnbonding])])
